@@ -88,7 +88,7 @@ _capacitance_from_law = law.rhs.subs({
 assert expr_equals(_capacitance_expr, _capacitance_from_law)
 
 
-@validate_input(relative_permittivity_=absolute_permittivity,
+@validate_input(absolute_permittivity_=absolute_permittivity,
     inner_radius_=inner_radius,
     outer_radius_=outer_radius)
 @validate_output(capacitance)
